@@ -109,7 +109,18 @@ def evidence_extra(total: Dict[str, Any]) -> Dict[str, Any]:
             'note': 'distinct_interleavings counts distinct orders of (element, record kind) events reached'}
 
 
+def systematic(tier: str):
+    """Every (batch size, sequential flag, scheduler policy) combination, several seeds each."""
+    reps = 40 if tier == 'quick' else 400
+    for n in range(3):
+        for seq in (0, 2):            # flag(1, 3): raw 2 -> sequential
+            for pol in (0, 2, 5):     # weighted [2, 3, 2] -> fifo, random, pct
+                for _ in range(reps):
+                    yield {'n': [n], 'sequential': [seq], 'sched.policy': [pol]}
+
+
 FAMILIES = {'async.batch': fam_batch}
+SYSTEMATIC = {'async.batch': systematic}
 PLAN = {
     'quick': {'async.batch': 84000},
     'thorough': {'async.batch': 120000},
